@@ -788,6 +788,9 @@ func RunRapid(c *core.Ctx) {
 			if cf.String() == "fmt.Sprintf" {
 				return true
 			}
+		case *ssa.BinOp:
+			// concatenation of valid UTF-8 strings is valid UTF-8
+			return t.Op == token.ADD && strOK(t.X, d+1) && strOK(t.Y, d+1)
 		case *ssa.UnOp, *ssa.Index, *ssa.Lookup, *ssa.Extract, *ssa.Next:
 			return true // element of a collection of such strings (paths list): checked at its source below
 		}
@@ -869,24 +872,10 @@ func RunRapid(c *core.Ctx) {
 	if f := byName["WithAnyTypes"]; f != nil {
 		okU := false
 		allInstrs(f, func(b *ssa.BasicBlock, in ssa.Instruction) {
-			call, ok := in.(*ssa.Call)
-			if !ok || call.Call.StaticCallee() == nil || call.Call.StaticCallee().String() != "fmt.Sprintf" || len(call.Call.Args) != 2 {
-				return
-			}
-			if fs, ok := constString(call.Call.Args[0]); ok && (fs == "/%s" || fs == "/%v") {
-				if sl, ok := call.Call.Args[1].(*ssa.Slice); ok {
-					if al, ok := sl.X.(*ssa.Alloc); ok {
-						for _, r := range *al.Referrers() {
-							if ia, ok := r.(*ssa.IndexAddr); ok {
-								for _, r2 := range *ia.Referrers() {
-									if st, ok := r2.(*ssa.Store); ok {
-										if _, ok := invokeChain(st.Val, "ProtoReflect", "Descriptor", "FullName"); ok {
-											okU = true
-										}
-									}
-								}
-							}
-						}
+			if v, ok := in.(ssa.Value); ok {
+				for _, x := range slashPlus(v) {
+					if _, ok := invokeChain(x, "ProtoReflect", "Descriptor", "FullName"); ok {
+						okU = true
 					}
 				}
 			}
@@ -915,11 +904,8 @@ func RunRapid(c *core.Ctx) {
 		f := byName["genAny"]
 		okS := false
 		allInstrs(f, func(b *ssa.BasicBlock, in ssa.Instruction) {
-			call, ok := in.(*ssa.Call)
-			if ok && call.Call.StaticCallee() != nil && call.Call.StaticCallee().String() == "fmt.Sprintf" {
-				if fs, ok := constString(call.Call.Args[0]); ok && fs == "/%s" {
-					okS = true
-				}
+			if v, ok := in.(ssa.Value); ok && len(slashPlus(v)) > 0 {
+				okS = true
 			}
 		})
 		c.Check(okS, "RAPID.url", "rapidproto.genAny hinted URL", "hinted URL is \"/\" + hint", "the hinted type URL is not built as \"/\" + hint", pos(f.Pos()), src)
@@ -1272,5 +1258,41 @@ func keys(m map[string]bool) []string {
 		out = append(out, k)
 	}
 	sort.Strings(out)
+	return out
+}
+
+// slashPlus: v is "/" followed by one value: fmt.Sprintf("/%s", x) (or %v) or "/" + x (x possibly converted to
+// string). It returns the candidate x values.
+func slashPlus(v ssa.Value) []ssa.Value {
+	var out []ssa.Value
+	switch t := v.(type) {
+	case *ssa.Call:
+		if t.Call.StaticCallee() == nil || t.Call.StaticCallee().String() != "fmt.Sprintf" || len(t.Call.Args) != 2 {
+			return nil
+		}
+		if fs, ok := constString(t.Call.Args[0]); !ok || (fs != "/%s" && fs != "/%v") {
+			return nil
+		}
+		if sl, ok := t.Call.Args[1].(*ssa.Slice); ok {
+			if al, ok := sl.X.(*ssa.Alloc); ok {
+				for _, r := range *al.Referrers() {
+					if ia, ok := r.(*ssa.IndexAddr); ok {
+						for _, r2 := range *ia.Referrers() {
+							if st, ok := r2.(*ssa.Store); ok {
+								out = append(out, st.Val)
+							}
+						}
+					}
+				}
+			}
+		}
+	case *ssa.BinOp:
+		if t.Op != token.ADD {
+			return nil
+		}
+		if l, ok := constString(t.X); ok && l == "/" {
+			out = append(out, t.Y)
+		}
+	}
 	return out
 }
